@@ -22,7 +22,8 @@ for name, (suite, rcw, rcn, race) in sorted(confirmed.items()):
     out = os.path.join('/verif/seeded', name)
     os.makedirs(out, exist_ok=True)
     for f in os.listdir(d):
-        shutil.copy(os.path.join(d, f), os.path.join(out, f))
+        if os.path.isfile(os.path.join(d, f)):
+            shutil.copy(os.path.join(d, f), os.path.join(out, f))
     notes = open(os.path.join(d, 'notes.md')).read() if os.path.exists(os.path.join(d, 'notes.md')) else ''
     title = notes.strip().split('\n')[0].lstrip('# ').strip()
     needs = ''
